@@ -110,16 +110,16 @@ func Get(name string) (Engine, error) {
 
 // Plan says how a property is checked.
 type Plan struct {
-	Prop      string
-	Engine    string
-	Variant   string
-	Quick     int // number of histories (engine-specific unit)
-	Thorough  int
-	Level     string // evidence level
-	Rule      string // how cases are generated and what makes one distinct/non-trivial
-	Assume    []string
-	MinCases  int // minimum distinct non-trivial classes for a conclusive verdict
-	Serial    bool // engine manages its own children (do not shard)
+	Prop     string
+	Engine   string
+	Variant  string
+	Quick    int // number of histories (engine-specific unit)
+	Thorough int
+	Level    string // evidence level
+	Rule     string // how cases are generated and what makes one distinct/non-trivial
+	Assume   []string
+	MinCases int  // minimum distinct non-trivial classes for a conclusive verdict
+	Serial   bool // engine manages its own children (do not shard)
 }
 
 var plans = map[string]Plan{}
